@@ -128,6 +128,9 @@ func viewOf(b []byte, s string, p int) bool {
 // disjointFromTail: the elements of v do not overlap the spare capacity b[len(b):cap(b)].
 func disjointFromTail(v, b any) bool { return true }
 
+// arg: in a `//@ callsite f: e` assertion, the i-th argument of the call to f.
+func arg[T any](i int) T { var z T; return z }
+
 // identical: a and b are the same value (for strings, a sufficient condition for a == b that
 // keeps uninterpreted spec functions congruent).
 func identical[T comparable](a, b T) bool { return a == b }
